@@ -1,25 +1,30 @@
 """C01 — Generated result types admit every spec-conformant response (structural clauses only).
 
 What is decided here is *not* the inclusion "every response is a member of the emitted type" (that quantifies over responses and
-TypeScript's semantics). It is the finite part of it that is visible in the shape of the generator: the union of branches the
-generator emits is built from a complete case analysis — every possible runtime object type times every assignment of the boolean
-variables in play — and no step between that case analysis and the printed union can drop a case or tighten a member:
+TypeScript's semantics). It is the finite part of it that is visible in the generator: the union of branches the generator emits
+is built from a complete case analysis — every possible runtime object type times every assignment of the boolean variables in
+play — and no step between that case analysis and the printed union can drop a case or tighten a member:
 
   R01-a  exact nullability tables of the output side (shared with C02: the tables are compared for equality, so a missing `| null`
          — which makes the type too strict — is reported as well as a spurious one);
   R01-b  branch coverage: parent objects = the object / all implementers / all union members, each boolean variable contributes
          both values, the two are combined by a full cartesian product, the variable enumeration visits every selection and every
-         @skip/@include directive, and nothing filters the product;
+         @skip/@include directive, and nothing cuts the product down;
   R01-c  branch identity: whatever pairs the branches of two occurrences of one response key must distinguish everything a
          BranchingCondition distinguishes (else the merge collapses cases);
   R01-d  the merge table of same-key fields and the skip/include table are exact (shared with C02), and `fast_equal`, which licenses
          de-duplication of union members, never equates different types.
+
+Structural instances look through helper functions (c02._inl) and are three-valued; instances whose message starts with `run:` are
+decided by abstract execution of the generator on a fixed schema and a GraphQL selection, compared with the spec's result for that
+input (see c02: _Interp, _Oracle) — a differing result is a concrete witness, an execution the interpreter cannot follow is UNDECIDED.
 """
 import harness
-from facts import norm, call_name, short, subnodes, lit_value, matches_on
+from facts import norm, subnodes, matches_on, AnchorMissing
 from prov import Prov, has_field, has_call
-from templates import LOSSY_OR_REORDERING, variant_table, enclosing_contexts
+from templates import variant_table
 import c02
+from c02 import _inl, _sections, _tri, _scenario, _scn, TRUNCATING
 
 PR = "nitrogql_printer::"
 OT = PR + "operation_type_printer::"
@@ -48,23 +53,43 @@ class _Relabel:
         return f
 
 
+CUTTING = {"take", "skip", "step_by", "nth", "last", "truncate", "take_while", "skip_while", "map_while"}
+
+
+def _cuts(fn, *about):
+    """names of the adaptors in `fn` that cut a sequence short, applied to a sequence whose type mentions one of `about`"""
+    out = set()
+    for c in fn.walk():
+        if c.get("k") == "MethodCall" and c["method"] in CUTTING:
+            t = " ".join(str(c.get(k, "")) for k in ("recv_ty", "self_ty")) + str(c["recv"].get("t", ""))
+            if any(a in t for a in about):
+                out.add(c["method"])
+    return sorted(out)
+
+
 def r01b(P, R):
-    g = P.fn(OT + "type_printer::generate_branching_conditions")
+    _sections(P, R, "R01-b", _b_parents, _b_implementers, _b_products, _b_variables, _b_branch_per_condition, _b_runs)
+
+
+def _b_parents(P, R):
+    """(1) parent objects per kind"""
+    g0 = P.fn(OT + "type_printer::generate_branching_conditions")
+    g = _inl(P, g0)
     pv = Prov(g)
-    # (1) parent objects per kind
     ms = matches_on(g, "TypeDefinition")
     R.floor("R01-b", "kind match in generate_branching_conditions", len(ms), 1)
-    for m in ms:
+    for m in ms[:1]:
         tab = variant_table(m)
         for kind, need in (("Object", None), ("Interface", "utils::interface_implementers"), ("Union", None)):
             arm = tab.get(kind)
             if arm is None:
-                R.violated("R01-b", "parents:" + kind, "generate_branching_conditions has no arm for %s parents" % kind, loc=g.loc())
+                # a catch-all arm may still enumerate by other means: the run instances possible-types:*:run decide
+                R.undecided("R01-b", "parents:" + kind, "generate_branching_conditions has no explicit arm for %s parents" % kind, loc=g0.loc())
                 continue
-            a = pv.atoms(arm["body"])
-            lossy = sorted({c["method"] for c in subnodes(arm["body"]) if c.get("k") == "MethodCall" and c["method"] in LOSSY_OR_REORDERING})
+            a = pv.deep_atoms(arm["body"])
+            lossy = sorted({c["method"] for c in subnodes(arm["body"]) if c.get("k") == "MethodCall" and c["method"] in TRUNCATING})
             if kind == "Interface":
-                ok = has_call(a, need)
+                ok = has_call(a, need) or has_field(a, TSD + "ObjectDefinition", "interfaces")
             elif kind == "Union":
                 ok = has_field(a, TSD + "UnionDefinition", "possible_types")
             else:
@@ -72,73 +97,90 @@ def r01b(P, R):
             R.check("R01-b", "parents:" + kind, ok and not lossy,
                     "%s parent: %s" % (kind, {"Object": "the object itself", "Interface": "all implementers", "Union": "all members"}[kind]),
                     "for a %s parent the candidate runtime types are %s%s: responses whose __typename is a dropped type have no branch"
-                    % (kind, "not enumerated from the schema" if not ok else "enumerated", (" and then cut down with %s" % lossy) if lossy else ""), loc=g.loc())
-    imp = P.fn(PR + "utils::interface_implementers")
-    lossy = sorted({c["method"] for c in imp.walk() if c.get("k") == "MethodCall" and c["method"] in (LOSSY_OR_REORDERING - {"filter", "filter_map"})})
-    ia = Prov(imp).atoms(imp.body)
-    R.check("R01-b", "implementers-all", not lossy and has_call(ia, "Schema::iter_types") and has_field(ia, TSD + "ObjectDefinition", "interfaces"),
-            "implementers = every object of the schema that lists the interface", "interface_implementers truncates (%s) or does not scan all types" % lossy, loc=imp.loc())
-    # (2) both values per variable, full products
-    pairs = [t for t in g.walk() if t.get("k") == "Tup" and len(t["es"]) == 2 and lit_value(t["es"][1]) in (True, False)]
-    vals = sorted({lit_value(t["es"][1]) for t in pairs})
-    R.check("R01-b", "variables-both-values", vals == [False, True], "every boolean variable contributes (v, false) and (v, true)",
-            "boolean variables contribute only %s" % vals, loc=g.loc())
+                    % (kind, "not enumerated from the schema" if not ok else "enumerated", (" and then cut down with %s" % lossy) if lossy else ""), loc=g0.loc())
+
+
+def _b_implementers(P, R):
+    imp0 = P.fn(PR + "utils::interface_implementers")
+    imp = _inl(P, imp0)
+    lossy = _cuts(imp, "ObjectDefinition", "TypeDefinition")
+    ia = Prov(imp).deep_atoms(imp.body)
+    reads = has_field(ia, TSD + "ObjectDefinition", "interfaces")
+    scans = has_call(ia, "Schema::iter_types") or has_field(ia, "schema::Schema", "type_definitions") or has_field(ia, "schema::Schema", "type_names")
+    _tri(R, "R01-b", "implementers-all", False if (lossy or not reads) else (True if scans else None),
+         "implementers = every object of the schema that lists the interface",
+         "interface_implementers truncates (%s) or never looks at the `interfaces` of an object" % lossy,
+         "how interface_implementers walks the schema's types is not recognised (the run instance possible-types:Interface:run decides)", loc=imp0.loc())
+
+
+def _b_products(P, R):
+    """(2) both values per variable, full products, nothing filtered"""
+    g0 = P.fn(OT + "type_printer::generate_branching_conditions")
+    g = _inl(P, g0)
+    bools = sorted({x.get("v") for x in g.walk() if x.get("k") == "Lit" and x.get("lk") == "bool"})
+    _tri(R, "R01-b", "variables-both-values:literals", True if bools == [False, True] else None,
+         "every boolean variable contributes (v, false) and (v, true)",
+         und="generate_branching_conditions mentions the boolean literals %s: how the values of a variable are enumerated is not recognised "
+             "(the run instance variables-both-values decides)" % bools, loc=g0.loc())
     calls = {c["method"] for c in g.walk() if c.get("k") == "MethodCall"}
-    R.check("R01-b", "assignments-product", "multi_cartesian_product" in calls, "assignments = product over the variables",
-            "the assignments of several variables are not combined by a product", loc=g.loc())
-    R.check("R01-b", "conditions-product", "cartesian_product" in calls, "conditions = parent objects x assignments",
-            "parent objects and assignments are not combined by a product", loc=g.loc())
-    outer_lossy = sorted({c["method"] for c in g.walk() if c.get("k") == "MethodCall" and c["method"] in (LOSSY_OR_REORDERING - {"unique"})})
-    R.check("R01-b", "conditions-unfiltered", not outer_lossy, "no condition is filtered out", "conditions are cut down with %s" % outer_lossy, loc=g.loc())
-    # (3) the variable enumeration sees every directive of every selection
-    gb = P.fn(OT + "type_printer::get_boolean_variables")
-    exits = [x.get("k") for x in gb.walk() if x.get("k") in ("Break", "Ret", "Continue") and not x.get("x")]
-    # `return None` inside the find_map closure (argument name test) is the only early exit allowed
-    rets = [i for i, (x, _) in enumerate(gb.nodes()) if x.get("k") == "Ret"]
-    bad = []
-    for i in rets:
-        inner = [c for c in enclosing_contexts(gb, i) if c[0] == "closure"]
-        calls_ = [n for n in gb.walk() if n.get("k") == "MethodCall" and n["method"] in ("find_map", "filter_map") and inner and any(a is inner[0][1] for a in n["args"])]
-        if not calls_:
-            bad.append("return")
-    bad += [k for k in exits if k in ("Break",)]
-    R.check("R01-b", "variables-all-directives", not bad, "every @skip/@include of every visited selection is inspected",
-            "get_boolean_variables leaves its directive loop early (%s): a variable used only by a later directive is not branched on" % bad, loc=gb.loc())
-    lits = {x.get("v") for x in gb.walk() if x.get("k") == "Lit" and x.get("lk") == "str"}
-    R.check("R01-b", "variables-both-directives", {"skip", "include", "if"} <= lits, "@skip and @include, argument `if`",
-            "get_boolean_variables looks at %s" % sorted(lits), loc=gb.loc())
-    vf = P.fn(OT + "selection_set_visitor::visit_fields_in_selection_set_impl")
-    vcalls = [(i, x) for i, (x, _) in enumerate(vf.nodes()) if x.get("k") == "Call" and call_name(x) is None]
-    cond = [c[0] for i, x in vcalls for c in enclosing_contexts(vf, i)
-            if (c[0] == "arm" and c[1] is not None and c[1].get("src") == "Normal") or c[0] in ("if-then", "if-else", "let-else")]
-    R.check("R01-b", "visitor-every-selection", len(vcalls) == 1 and not cond, "the visitor sees every selection (fields, spreads, inline fragments)",
-            "the selection visitor is invoked conditionally (%s)" % cond, loc=vf.loc())
-    # (4) one branch per condition: get_type_for_selection_set maps every condition
-    gt = P.fn(OT + "type_printer::get_type_for_selection_set")
-    lossy = sorted({c["method"] for c in gt.walk() if c.get("k") == "MethodCall" and c["method"] in LOSSY_OR_REORDERING})
-    R.check("R01-b", "branch-per-condition", not lossy and has_call(Prov(gt).atoms(gt.body), "type_printer::generate_branching_conditions"),
-            "one branch per branching condition", "get_type_for_selection_set drops conditions (%s)" % lossy, loc=gt.loc())
+    _tri(R, "R01-b", "assignments-product", True if "multi_cartesian_product" in calls else None, "assignments = product over the variables",
+         und="no multi_cartesian_product in generate_branching_conditions: how the assignments of several variables are combined is not recognised "
+             "(the run instance variables-both-values decides)", loc=g0.loc())
+    _tri(R, "R01-b", "conditions-product", True if "cartesian_product" in calls else None, "conditions = parent objects x assignments",
+         und="no cartesian_product in generate_branching_conditions: how parent objects and assignments are combined is not recognised (the run "
+             "instances decide)", loc=g0.loc())
+    cut = _cuts(g, "BranchingCondition", "ObjectDefinition", "bool")
+    filt = sorted({c["method"] for c in g.walk() if c.get("k") == "MethodCall" and c["method"] in ("filter", "filter_map")})
+    _tri(R, "R01-b", "conditions-unfiltered", False if cut else (None if filt else True), "no condition is filtered out",
+         "conditions are cut down with %s" % cut, "generate_branching_conditions applies %s; whether a condition can be dropped is not decided" % filt, loc=g0.loc())
+
+
+def _b_variables(P, R):
+    """(3) the variable enumeration sees every directive of every selection (decided by running the generator)"""
+    c02._f_variable_runs(P, R, "R01-b")
+
+
+def _b_branch_per_condition(P, R):
+    """(4) one branch per condition: get_type_for_selection_set maps every condition"""
+    gt0 = P.fn(OT + "type_printer::get_type_for_selection_set")
+    gt = _inl(P, gt0)
+    lossy = _cuts(gt, "BranchingCondition", "SelectionTreeBranch")
+    uses = has_call(Prov(gt).deep_atoms(gt.body), "type_printer::generate_branching_conditions")
+    _tri(R, "R01-b", "branch-per-condition", False if lossy else (True if uses else None),
+         "one branch per branching condition", "get_type_for_selection_set drops conditions (%s)" % lossy,
+         "get_type_for_selection_set does not call generate_branching_conditions directly (the run instances decide)", loc=gt0.loc())
+
+
+def _b_runs(P, R):
+    S = _scn(P)
+    _scenario(R, "R01-b", "parents:Object:run", S, "User", "{ id }", "an object parent has its own branch")
+    _scenario(R, "R01-b", "parents:Interface:run", S, "Named", "{ name }", "an interface parent has a branch for every implementing object (wherever the interface stands in its list)")
+    _scenario(R, "R01-b", "parents:Union:run", S, "Thing", "{ __typename ... on Node { id } }", "a union parent has a branch for every member")
+    _scenario(R, "R01-b", "conditions-product:run", S, "Node", "{ a: id @skip(if: $p) ... on Bot { m: model @include(if: $q) } }",
+              "every possible object is combined with every assignment of the boolean variables")
 
 
 def r01c(P, R):
     """what identifies a branch after it has been built"""
-    go = P.fn(OT + "type_printer::get_object_type_for_selection_set")
+    go = _inl(P, P.fn(OT + "type_printer::get_object_type_for_selection_set"))
     pv = Prov(go)
     lits = [n for n in go.walk() if n.get("k") == "Struct" and "rest" not in n and norm(n.get("adt", "")) == STB]
     R.floor("R01-c", "SelectionTreeBranch constructions", len(lits), 1)
     bc_fields = set(P.adt(BC).fields())
-    stb = P.adt(STB)
     content = {"unaliased_fields", "aliased_fields"}
     for n in lits:
         ident = set()
         for fld in n["fields"]:
             if fld["name"] in content:
                 continue
-            ident |= {x[2] for x in pv.atoms(fld["e"]) if x[0] == "field" and x[1] == BC}
+            ident |= {x[2] for x in pv.deep_atoms(fld["e"]) if x[0] == "field" and x[1] == BC}
         missing = sorted(bc_fields - ident)
         # who pairs branches, and by what
-        mg = P.fn(OT + "deep_merge::merge_selection_trees")
-        keys = sorted({x[2] for x in Prov(mg).atoms(mg.body) if x[0] == "field" and x[1] == STB and x[2] not in content})
+        try:
+            mg = P.fn(OT + "deep_merge::merge_selection_trees")
+            keys = sorted({x[2] for x in Prov(mg).atoms(mg.body) if x[0] == "field" and x[1] == STB and x[2] not in content})
+        except AnchorMissing:
+            keys = sorted(set(P.adt(STB).fields()) - content)
         R.check("R01-c", "merge-branch-key-drops-variables", not missing,
                 "a branch carries every component of the condition it was built for",
                 "a SelectionTreeBranch records only %s of its BranchingCondition (not %s) and merge_selection_trees pairs the branches of two "
@@ -155,7 +197,10 @@ def r01d(P, R):
 
 RULES = [("R01-a", r01a), ("R01-b", r01b), ("R01-c", r01c), ("R01-d", r01d)]
 EXPLANATION = (
-    "Structural necessary conditions of completeness of the emitted Result types, decided for all schemas and documents: (R01-a) the "
+    "Necessary conditions of completeness of the emitted Result types. Structural instances are decided for all schemas and documents; "
+    "instances marked `run:` are decided by abstract execution of the generator over the typed HIR on a fixed small schema and a GraphQL "
+    "selection (everything else undetermined), compared with the GraphQL spec's result for that input — a differing result is a concrete "
+    "witness. (R01-a) the "
     "output-side nullability tables equal the spec table (a missing `| null` is reported); (R01-b) the case analysis behind the union of "
     "branches is complete — object itself / all implementers / all union members, both values of every boolean variable found by a "
     "visitor that sees every selection and every @skip/@include, combined by full cartesian products with no filter; (R01-c) a branch "
@@ -164,6 +209,7 @@ EXPLANATION = (
     "inclusion itself (membership of every response in the TypeScript type, the __SelectionSet utility type, scalar mappings).")
 ASSUMPTIONS = ["itertools::cartesian_product / multi_cartesian_product / unique behave as documented",
                "rustc type checker resolves callees (facts)",
+               "the interpreter's models of std (Option, iterators, Vec, HashMap/HashSet, itertools products) are exact; anything else is UNDECIDED",
                "TypeScript semantics of the emitted utility types is outside the claim"]
 
 
